@@ -467,6 +467,10 @@ class Certificate:
         """
         if issuer.certificate_has_all_permissions():
             return True
+        if self.certificate_has_all_permissions():
+            # The subject claims the right to issue for all PSIDs; an issuer holding
+            # explicit issuing permissions only cannot grant that.
+            return False
         return Certificate.check_all_requested_permissions_are_allowed(
             self.get_list_of_needed_permissions(),
             issuer.get_list_of_allowed_persmissions(),
